@@ -82,7 +82,8 @@ def load_registry():
             # the harness function must follow
             found = False
             for j in range(i + 1, min(i + 12, len(lines))):
-                if re.match(r"\s*(pub(\(crate\))?\s+)?fn\s+%s\s*\(" % re.escape(name), lines[j]):
+                if re.match(r"\s*(pub(\(crate\))?\s+)?fn\s+%s\s*\(" % re.escape(name), lines[j]) or \
+                        re.match(r"\s*\w+!\(\s*%s\s*[,)]" % re.escape(name), lines[j]):
                     found = True
                     break
             if not found:
